@@ -58,7 +58,7 @@ InitModel(D, oem) ==
 Begin(e) ==
    LET oem == Oem(e.cfg)
        D == Derive(e.raw, oem)
-   IN [pid |-> e.pid, dead |-> ~e.raw.ok, pm |-> FALSE, cfg |-> e.cfg, oem |-> oem, m |-> InitModel(D, oem), raw |-> e.raw, D |-> D,
+   IN [pid |-> e.pid, dead |-> ~e.raw.ok, pm |-> FALSE, pm12 |-> FALSE, cfg |-> e.cfg, oem |-> oem, m |-> InitModel(D, oem), raw |-> e.raw, D |-> D,
        rv |-> Get(e, "rv", [ok |-> FALSE]), sv |-> <<>>, svok |-> FALSE,
        mounted |-> FALSE, mountSt |-> e.raw.st, changed |-> FALSE, clk |-> e.clk, ro |-> TRUE,
        atime |-> Get(e.cfg, "atime", FALSE), U |-> e.raw.g.cell, fiUsable |-> FALSE, fiW |-> FALSE, fiTrust |-> TRUE, mountRaw |-> e.raw, mountFree |-> FreeCount(D.F),
@@ -356,15 +356,29 @@ Step(s, e) ==
    IF e.op = "begin" THEN
         IF e.r.k # "ok" \/ ~Has(e, "raw") THEN [s |-> Dead, v |-> {}, dev |-> {}, note |-> {"SKIPBEGIN"}]
         ELSE [s |-> Begin(e), v |-> BeginViol(e), dev |-> {}, note |-> {}]
-   ELSE IF s.dead /\ Get(s, "pm", FALSE) /\ e.op \notin {"end", "crash", "poke"} THEN
-        \* the model was given up after a false clause (the results or the tree no longer follow it): the clauses of C03 that need no
-        \* model are still judged on every later image, every file treated as if its entry lagged (no size, chain or lost-cluster
-        \* demand); a fault, panic or skipped call ends that too
-        IF Has(e, "flt") \/ e.r.k \in {"panic", "hang", "skip"} THEN [s |-> [s EXCEPT !.pm = FALSE], v |-> {}, dev |-> {}, note |-> {}]
-        ELSE IF ~Has(e, "raw") \/ ~e.raw.ok THEN [s |-> s, v |-> {}, dev |-> {}, note |-> {}]
-        ELSE LET Dp == Derive(e.raw, s.oem)
+   ELSE IF s.dead /\ (Get(s, "pm", FALSE) \/ Get(s, "pm12", FALSE)) /\ e.op \notin {"end", "crash", "poke"} THEN
+        \* PM step.  The model was given up (after a false clause: pm and pm12; after an injected fault that the program survives:
+        \* pm12 only).  Clauses that need no model are still judged on every later image:
+        \*   pm   - the clauses of C03, every file treated as if its entry lagged (no size, chain or lost-cluster demand); a further
+        \*          fault ends that (a failed call may leave half-written structures)
+        \*   pm12 - the status-byte rules of C12: a structural change (difference of two raw projections) needs the dirty bit, no bit
+        \*          is ever cleared, a successful unmount restores the byte
+        IF e.r.k \in {"panic", "hang"} THEN [s |-> [s EXCEPT !.pm = FALSE, !.pm12 = FALSE], v |-> {}, dev |-> {}, note |-> {}]
+        ELSE IF e.r.k = "skip" \/ (Has(e, "raw") /\ ~e.raw.ok) THEN [s |-> s, v |-> {}, dev |-> {}, note |-> {}]
+        ELSE LET post == IF Has(e, "raw") THEN e.raw ELSE s.raw
+                 Dp == IF Has(e, "raw") THEN Derive(post, s.oem) ELSE s.D
+                 pmS == Get(s, "pm", FALSE) /\ ~Has(e, "flt")
                  files == {Dp.rows[i].p : i \in {x \in 1..Len(Dp.rows) : ~Dp.rows[x].e.dir}}
-             IN [s |-> s, v |-> StructViol(e.raw, Dp, files, [p \in files |-> 0]) \ {"C03.lost"}, dev |-> {}, note |-> {"PM"}]
+                 v3 == IF pmS /\ Has(e, "raw") THEN StructViol(post, Dp, files, [p \in files |-> 0]) \ {"C03.lost"} ELSE {}
+                 changedNow == Has(e, "raw") /\ e.op # "mount" /\ Structural(s.raw, s.D, post, Dp)
+                 changed == IF e.op = "mount" THEN FALSE ELSE s.changed \/ changedNow
+                 mountSt == IF e.op = "mount" THEN s.raw.st ELSE s.mountSt
+                 v12 == IF ~Get(s, "pm12", FALSE) THEN {}
+                        ELSE IF e.op \in {"unmount", "dropfs"} THEN Tag("C12.unmount_restores", e.r.k = "ok" => post.st = mountSt)
+                        ELSE IF e.op = "abandon" THEN {}
+                        ELSE Tag("C12.bracket", changed => DirtyBit(post.st)) \cup Tag("C12.never_cleared", BitsKept(mountSt, post.st))
+             IN [s |-> [s EXCEPT !.pm = pmS, !.raw = post, !.D = Dp, !.changed = changed, !.mountSt = mountSt],
+                 v |-> v3 \cup v12, dev |-> {}, note |-> {"PM"}]
    ELSE IF e.op = "end" \/ (s.dead /\ (e.op # "crash" \/ ~Has(s, "dur"))) THEN [s |-> s, v |-> {}, dev |-> {}, note |-> {}]
    ELSE IF e.op = "crash" THEN
         \* C14: the image a power cut leaves after the first e.p entries of the device write log
@@ -390,7 +404,8 @@ Step(s, e) ==
    ELSE IF Has(e, "flt") /\ e.flt.drop = FALSE /\ ~(e.op = "flush" /\ (e.r.k = "ok" \/ (e.r.k = "err" /\ e.r.e = "Io"))) THEN
         \* an injected storage fault (C09 judges those traces): only an explicit flush has a defined continuation here: if it fails
         \* nothing is promised, and if the library reports success in spite of the fault its promise (C14) stands
-        [s |-> [s EXCEPT !.dead = TRUE], v |-> {}, dev |-> {}, note |-> {"FAULT"}]
+        \* (the status-byte rules of C12 need no model: they stay in force, see the PM step)
+        [s |-> [s EXCEPT !.dead = TRUE, !.pm12 = TRUE], v |-> {}, dev |-> {}, note |-> {"FAULT"}]
    ELSE IF e.r.k \in {"panic", "hang"} THEN
         [s |-> [s EXCEPT !.dead = TRUE], v |-> {IF e.r.k = "panic" THEN "C00.panic" ELSE "C00.hang"}, dev |-> {}, note |-> {}]
    ELSE
@@ -565,6 +580,7 @@ Step(s, e) ==
        v == os.v \cup st3.v \cup tv \cup c10 \cup c11 \cup c11o \cup c12 \cup c13 \cup c05 \cup c08
    IN [s |-> [s EXCEPT !.m = m, !.raw = post, !.D = Dp, !.rv = rv, !.sv = sv, !.svok = svok, !.dead = (\E t \in v : \E pfx \in {"C00.", "C01.", "C02.", "C04.", "C15."} : SubSeqStr(t, pfx)),
                        !.pm = (\E t \in v : \E pfx \in {"C00.", "C01.", "C02.", "C04.", "C15."} : SubSeqStr(t, pfx)),
+                       !.pm12 = (\E t \in v : \E pfx \in {"C00.", "C01.", "C02.", "C04.", "C15."} : SubSeqStr(t, pfx)),
                        !.changed = changed, !.mountSt = mountSt, !.ro = ro, !.fiUsable = fiUsable, !.fiW = fiW, !.fiTrust = fiTrust,
                        !.mountRaw = IF e.op = "mount" THEN s.raw ELSE s.mountRaw,
                        !.mountFree = IF e.op = "mount" THEN FreeCount(s.D.F) ELSE s.mountFree, !.dur = dur, !.wl = wlNow,
